@@ -1,7 +1,7 @@
 (* C01  Safe-mode pickles obey the reference stack discipline (pickletools.dis semantics). *)
 From Coq Require Import List NArith Bool.
 From PF Require Import Config Sim Ref Lex Envelope Oracles.
-From PF.proofs Require Import Refine Run PropsR Examples.
+From PF.proofs Require Import Refine Run PropsR LexRT PropsB Examples.
 
 (* every run of the envelope (any protocol, any safe mutator list and rate, any opcode range,
    both opt-in flags, any choice of valid opcodes and any arguments the emitters can produce)
@@ -11,6 +11,15 @@ Theorem C01_tokens : forall c framed steps,
   safeb c = true -> run_R c framed steps -> ref_accepts (run_tokens c framed steps) = true.
 Proof. exact C01_R. Qed.
 Print Assumptions C01_tokens.
+
+(* the same on the emitted BYTES (through the lexer round trip): the serialised run lexes back
+   to its tokens and the reference machine accepts them.  `fits` = the output is shorter than
+   2^64 bytes (it is a Vec<u8>); needed only for the 8-byte FRAME length *)
+Theorem C01_bytes : forall c framed steps,
+  safeb c = true -> run_R c framed steps -> fits c framed steps ->
+  oracle_C01 (serialize (run_tokens c framed steps)) = true.
+Proof. exact C01_B. Qed.
+Print Assumptions C01_bytes.
 
 (* non-vacuity: concrete runs with MARKs, memo traffic, REDUCE and an open MARK at the end *)
 Example C01_nonvacuous :
